@@ -47,10 +47,10 @@ DRIVER = 'drv_c13'
 # metamorphic relations (float32 pipeline end to end): |a - b| <= RTOL_META * scale, where scale is the
 # largest magnitude in the column (for power/poles: at least the shot-noise level L^3 sum(w^2)/N^2, so a
 # column that is identically ~0 is compared absolutely)
-RTOL_META = 1e-4
+RTOL_META = 5e-5
 # get_field_fft vs the binary64 naive-DFT pipeline fed with the same real-space grids:
 RTOL_FFT32 = 5e-5          # complex64 pipeline (float32 grid, float32 phase/window); relative to max |F|
-RTOL_FFT64 = 1e-11         # dtype=float64, not compensated
+RTOL_FFT64 = 1e-12         # dtype=float64, not compensated
 RTOL_FFT64_W = 2e-6        # dtype=float64, compensated (the window itself is float32 in the real code)
 ATOL_W = 2e-6              # get_W_compensated (float32 wavenumbers), W <= 1
 RTOL_RFFTN = 1e-12         # scipy rfftn (binary64) vs defining sum (binary64), relative to max |F|
@@ -64,7 +64,7 @@ RULE = ('stage-wise: normalize_field/_normalize on dyadic grids (exact) and gene
         'non-zero shift; distinct = distinct (configuration, particle set)')
 TRUSTED = [
     'float32/float64 rounding inside numba (fastmath) and scipy.fft.rfftn: compared under the stated bounds '
-    '(RTOL_META=1e-4 of the column scale for calc_power outputs; 5e-5 / 1e-11 / 2e-6 of max|F| for get_field_fft)',
+    '(RTOL_META=5e-5 of the column scale for calc_power outputs; 5e-5 / 1e-12 / 2e-6 of max|F| for get_field_fft)',
     'scipy.fft.rfftn computes the DFT (spot-checked on every run against the defining finite sum on meshes <= 6^3)',
     'the deposit (tsc_parallel / cic_serial) is additive over particles and roll-equivariant: hypotheses of the '
     'theorems here, proved for the C06 model and tied to the code by the C06 check',
@@ -125,7 +125,7 @@ def stage_normalize(ctx, ps):
     for t in range(ntrial):
         n = int(rng.integers(2, 7))
         size = n ** 3
-        dt = np.float32 if t % 3 else np.float64
+        dt = np.float32 if (t % 3 or ctx.quick) else np.float64   # float64 specialisations: thorough tier only
         dyadic = t % 4 != 3
         mode = ('tot', 'sum')[int(rng.integers(0, 2))]
         inplace = bool(rng.integers(0, 2))
@@ -185,7 +185,7 @@ def stage_normalize(ctx, ps):
     for t in range(ctx.pick(12, 80)):
         n = int(rng.integers(2, 7))
         shape = (n, n, n // 2 + 1)
-        cdt, fdt = (np.complex64, np.float32) if t % 3 else (np.complex128, np.float64)
+        cdt, fdt = (np.complex64, np.float32) if (t % 3 or ctx.quick) else (np.complex128, np.float64)
         dyadic = t % 2 == 0
         if dyadic:
             z = (rng.integers(-64, 64, shape) + 1j * rng.integers(-64, 64, shape)) / 8
@@ -244,13 +244,14 @@ def stage_rfftn(ctx):
 def stage_fieldfft(ctx, ps):
     rng = ctx.rng
     reqs, metas = [], []
-    ntrial = ctx.pick(48, 320)
+    ntrial = ctx.pick(40, 320)
     for t in range(ntrial):
         n = int(rng.integers(2, 7))
         paste = ('TSC', 'CIC')[t % 2]
         interlaced = bool((t // 2) % 2)
         compensated = bool((t // 4) % 2)
-        f64 = (not interlaced) and bool((t // 8) % 2)      # the interlaced path is float32 only
+        # the interlaced path is float32 only; float64 specialisations cost ~30 s of compilation: thorough only
+        f64 = (not interlaced) and bool((t // 8) % 2) and not ctx.quick
         dt = np.float64 if f64 else np.float32
         dyadic_box = bool(rng.integers(0, 2))
         L = float(n * 2.0 ** int(rng.integers(-1, 4))) if dyadic_box else float(np.float32(rng.uniform(5, 500)))
@@ -344,7 +345,7 @@ def stage_rawpower(ctx, ps):
     for t in range(ctx.pick(8, 40)):
         n = int(rng.integers(2, 7))
         shape = (n, n, n // 2 + 1)
-        cdt = np.complex64 if t % 2 else np.complex128
+        cdt = np.complex64 if (t % 2 or ctx.quick) else np.complex128
         a = (rng.standard_normal(shape) + 1j * rng.standard_normal(shape)).astype(cdt)
         b = (rng.standard_normal(shape) + 1j * rng.standard_normal(shape)).astype(cdt)
         kind = ('auto', 'cross', 'self')[t % 3]
@@ -651,7 +652,7 @@ def run(ctx):
     stage_rawpower(ctx, ps)
     stage_fieldfft(ctx, ps)
     warm_up(ps)
-    stage_metamorphic(ctx, ps, ctx.pick(56, 480))
+    stage_metamorphic(ctx, ps, ctx.pick(24, 320))
     ctx.extra['bounds'] = dict(RTOL_META=RTOL_META, RTOL_FFT32=RTOL_FFT32, RTOL_FFT64=RTOL_FFT64,
                                RTOL_FFT64_W=RTOL_FFT64_W, ATOL_W=ATOL_W, RTOL_RFFTN=RTOL_RFFTN)
     ctx.extra['scope'] = ('calc_power: nmesh 4..16 (odd and even), TSC/CIC, compensated, interlaced, lin/log k bins, '
